@@ -200,6 +200,7 @@ fn run_in_thread(family: Family, mode: Mode) -> RunOut {
     *w.immediate_mask.borrow_mut() = plan.immediate_mask.clone();
     w.ready_fail_after.set(plan.cfg.svc_ready_fail_after);
     w.slow_shutdown.set(plan.cfg.svc_slow_shutdown);
+    w.ack_props.set(plan.cfg.ack_props);
 
     let driver = SimDriver::new(w.clone(), plan.clone());
     let rt = Runtime::builder().event_interval(1).build(Box::new(NoopNotify));
